@@ -27,6 +27,18 @@ use syn::{
 	MetaNameValue, Path, Variant,
 };
 
+/// The single item of a `#[codec(..)]` attribute, optionally followed by a comma:
+/// `check_attributes` accepts `#[codec(skip,)]`, so the finders must see the item as well.
+struct SingleItem<M>(M);
+
+impl<M: Parse> Parse for SingleItem<M> {
+	fn parse(input: syn::parse::ParseStream) -> syn::Result<Self> {
+		let item = input.parse()?;
+		let _: Option<Token![,]> = input.parse()?;
+		Ok(Self(item))
+	}
+}
+
 fn find_meta_item<'a, F, R, I, M>(mut itr: I, mut pred: F) -> Option<R>
 where
 	F: FnMut(M) -> Option<R> + Clone,
@@ -34,7 +46,10 @@ where
 	M: Parse,
 {
 	itr.find_map(|attr| {
-		attr.path().is_ident("codec").then(|| pred(attr.parse_args().ok()?)).flatten()
+		attr.path()
+			.is_ident("codec")
+			.then(|| pred(attr.parse_args::<SingleItem<M>>().ok()?.0))
+			.flatten()
 	})
 }
 
